@@ -100,12 +100,12 @@ def harness_dir(kind="harness"):
     else:
         dst = os.path.join(scratch_root(), kind)
         os.makedirs(dst, exist_ok=True)
-        sh(["rsync", "-a", "--delete", "--exclude", "target", "--exclude", "Cargo.toml", src + "/", dst + "/"])
+        sh(["rsync", "-rlc", "--delete", "--exclude", "target", "--exclude", "Cargo.toml", src + "/", dst + "/"])
         if kind != "harness":
             # harness-els/src/lib.rs includes ../../harness/src/lib.rs by #[path]: keep the shared library sources
             # (lib.rs and its modules, not the binaries) next to the copy too
             os.makedirs(os.path.join(scratch_root(), "harness", "src"), exist_ok=True)
-            sh(["rsync", "-a", "--delete", "--exclude", "bin", os.path.join(VERIF, "harness", "src") + "/",
+            sh(["rsync", "-rlc", "--delete", "--exclude", "bin", os.path.join(VERIF, "harness", "src") + "/",
                 os.path.join(scratch_root(), "harness", "src") + "/"])
     tmpl = open(os.path.join(src, "Cargo.toml.in")).read().replace("@REPO@", REPO)
     out = os.path.join(dst, "Cargo.toml")
